@@ -467,6 +467,30 @@ pub fn big_family(sizes: &[usize], mut f: impl FnMut(&GCase, Key, Key)) {
         tail.push((n - 1, n - 4));
         tail.push((n - 2, n - 2));
         f(&GCase { n, prio: prio(n), edges: mk(tail) }, 0, (n - 2) as Key);
+        // fan: root -> spokes 1..=k in order, a chain among the spokes (every spoke is reached a second time
+        // from its predecessor on the same level), one private child per spoke; targets = children of the
+        // spokes whose discovery index sits on either side of a power of two
+        let k = (n - 1) / 2;
+        if k >= 4 {
+            let mut fan: Vec<(usize, usize)> = (1..=k).map(|i| (0, i)).collect();
+            fan.extend((1..k).map(|i| (i, i + 1)));
+            fan.extend((1..=k).map(|i| (i, k + i)));
+            let g = GCase { n: 2 * k + 1, prio: vec![0; 2 * k + 1], edges: mk(fan) };
+            let mut spokes: BTreeSet<usize> = BTreeSet::new();
+            let mut p = 4usize;
+            while p <= k + 2 {
+                for d in [p - 2, p - 1, p, p + 1, p + 2] {
+                    if d >= 1 && d <= k {
+                        spokes.insert(d);
+                    }
+                }
+                p *= 2;
+            }
+            spokes.insert(k);
+            for sp in spokes {
+                f(&g, 0, (k + sp) as Key);
+            }
+        }
     }
 }
 
